@@ -34,7 +34,7 @@ PLAN = {
 RUNS = {  # (quick, thorough)
     "C07": (40000, 1500000),
     "C11": (15000, 600000),
-    "C12": (8000, 400000),
+    "C12": (6000, 300000),
     "C15": (8000, 300000),
     "C16": (60000, 2500000),
     "C18": (30000, 1200000),
@@ -153,6 +153,15 @@ def classify_event(binary, world, variant, flavour, line):
     pc = int(kv.get("pc", 0))
     fn, loc = symbolize(binary, [pc])[pc] if pc else ("(outside the main image: libc/runtime)", "?")
     extra = {"fn": fn, "loc": loc, "call": int(kv.get("call", -1)), "raw": " ".join(tok[3:])}
+    if what == "TSANREP":
+        pcs = [int(kv.get("pc0", 0)), int(kv.get("pc1", 0))]
+        sy = symbolize(binary, pcs)
+        return Finding(world, variant, flavour, run, seed, "race", "none", "data race reported by ThreadSanitizer before the run exhausted its wall-clock budget: %s (%s) vs %s (%s)" % (sy[pcs[0]][0], sy[pcs[0]][1], sy[pcs[1]][0], sy[pcs[1]][1]),
+                       {"fns": [sy[p][0] for p in pcs], "locs": [sy[p][1] for p in pcs]})
+    if what == "RACE-LIMIT":
+        return Finding(world, variant, flavour, run, seed, "note", "?", "run ended after four race reports", {})
+    if what == "TIMEOUT":
+        return Finding(world, variant, flavour, run, seed, "hang", "?", "run did not finish within its wall-clock budget", {"fn": "?"})
     if what == "SIMRT-DEADLOCK":
         return Finding(world, variant, flavour, run, seed, "deadlock", "?", "all live tasks blocked on wrapped primitives", extra)
     if what == "ASAN":
@@ -226,7 +235,7 @@ def replay_once(binary, path, extra_args=()):
     for line in r.stdout.split("\n"):
         if line.startswith("RESULT "):
             res = json.loads(line[7:])
-        elif line.startswith(("FAULT", "ASAN", "SIMRT-DEADLOCK")):
+        elif line.startswith(("FAULT", "ASAN", "SIMRT-DEADLOCK", "TSANREP", "TIMEOUT", "RACE-LIMIT")):
             events.append("EVENT run=-1 seed=0 " + line)
     return res, events, r.returncode
 
@@ -238,8 +247,8 @@ def findings_of(binary, world, variant, flavour, res, events, rc=0):
         out.append(Finding(world, variant, flavour, -1, 0, "hang" if hang else "crash", "?", "replay process ended with status %d" % rc, {"fn": "?"}))
     if res:
         for v in res.get("viol", []):
-            if v["kind"] == "invalid-program":
-                continue
+            if v["kind"] in ("invalid-program", "race"):
+                continue  # races are streamed as TSANREP events by the runtime (also when the run does not complete)
             extra = {"call": v.get("call", -1)}
             if v["kind"] == "race":
                 pcs = [int(x, 16) for x in v["detail"].split("sites=")[1].split(",")] if "sites=" in v["detail"] else []
@@ -495,7 +504,7 @@ def main():
                 local["runs"] += 1
             elif kind == "died":
                 kv = parse_kv(payload.split())
-                if kv.get("exit") not in ("78", "77", "79"):
+                if kv.get("exit") not in ("78", "77", "79", "80", "81"):
                     hang = kv.get("signal") == "14"
                     findings.append(Finding(world, variant, fl, int(kv.get("run", -1)), int(kv.get("seed", 0)), "hang" if hang else "crash", "?",
                                             ("run did not finish within its wall-clock budget: " if hang else "process died: ") + payload, {"fn": "?"}))
@@ -533,6 +542,15 @@ def main():
             continue
         by_class.setdefault(f.cls(), []).append(f)
 
+    race_runs = {(f.world, f.run) for f in findings if f.kind == "race"}
+    for cls in list(by_class.keys()):
+        if cls.startswith("hang"):
+            rest = [f for f in by_class[cls] if (f.world, f.run) not in race_runs]
+            if rest:
+                by_class[cls] = rest
+            else:
+                other["hang-in-a-run-that-already-reports-a-race"] += len(by_class[cls])
+                del by_class[cls]
     violations = []
     known_hits = []
     exit_code = 0
